@@ -698,7 +698,7 @@ func runNative(repo, hdir string, vf vectorFile, retries int) ([]nativeRes, erro
 		}
 		b, _ := json.Marshal(sub)
 		os.WriteFile(vecPath, b, 0o644)
-		args := []string{"test", "-v", "-vet=off", "-count=1", "-timeout", "150s", "-run", "^TestVerifReplay$", "-overlay", ovPath}
+		args := []string{"test", "-v", "-vet=off", "-count=1", "-timeout", "90s", "-run", "^TestVerifReplay$", "-overlay", ovPath}
 		env := append(goEnv(), "VERIF_VECTORS="+vecPath)
 		race := false
 		for _, v := range sub.Vectors {
@@ -760,7 +760,7 @@ func runNative(repo, hdir string, vf vectorFile, retries int) ([]nativeRes, erro
 			// first vector without a result
 			for _, idx := range idxs {
 				if !seenIdx[idx] {
-					out[idx] = nativeRes{status: "PANIC", msg: "the native run does not terminate (test timed out after 150 s)"}
+					out[idx] = nativeRes{status: "PANIC", msg: "the native run does not terminate (test timed out after 90 s)"}
 					delete(pending, idx)
 					break
 				}
